@@ -8,6 +8,7 @@ import (
 	"fmt"
 	"os"
 	"strings"
+	"sync"
 )
 
 type PNode struct {
@@ -47,6 +48,8 @@ type PegSpec struct {
 	Nullable map[string]bool
 	LeftRec  map[string]bool
 	First    map[string]firstSet
+	ProvenRule map[string]bool
+	ProvenStar map[int]bool
 }
 
 type SpecMode struct {
@@ -180,9 +183,10 @@ func (ps *PegSpec) Prelude(ruleConst map[string]int, ast bool) string {
 	ps.computeFirst()
 	var sb strings.Builder
 	sb.WriteString("; ---- pegspec\n(declare-sort TSeq 0)\n(declare-fun snoc (TSeq DT_token) TSeq)\n(declare-const seq_empty TSeq)\n")
-	sb.WriteString("(declare-fun abs ((Array Int DT_token) Int) TSeq)\n")
+	sb.WriteString("(declare-fun tabs ((Array Int DT_token) Int) TSeq)\n")
 	sb.WriteString("(declare-const bufc (Array Int Int))\n(declare-const n Int)\n")
 	sb.WriteString("(declare-fun OK (Int Int) Bool)\n(declare-fun END (Int Int) Int)\n(declare-fun APP (Int Int TSeq) TSeq)\n(declare-fun MX (Int Int DT_token) DT_token)\n")
+	sb.WriteString("(declare-sort TLog 0)\n(declare-fun snocL (TLog Int Str) TLog)\n(declare-fun TXT (Int Int Str) Str)\n(declare-fun LOG (Int Int TLog Str) TLog)\n")
 	sb.WriteString("(define-fun upd ((m DT_token) (t DT_token)) DT_token (ite (and (not (= (token_begin t) (token_end t))) (> (token_end t) (token_end m))) t m))\n")
 	for i := range ps.Preds {
 		fmt.Fprintf(&sb, "(declare-fun P_%d (Int) Bool)\n", i)
@@ -217,6 +221,8 @@ func (ps *PegSpec) Prelude(ruleConst map[string]int, ast bool) string {
 		fmt.Fprintf(&sb, "(assert (forall ((p Int)) (! (and (OK %d p) (= (END %d p) p)) :pattern ((OK %d p)) :pattern ((END %d p)))))\n", c, c, c, c)
 		fmt.Fprintf(&sb, "(assert (forall ((p Int) (a TSeq)) (! (= (APP %d p a) (snoc a (mk_token %d p p))) :pattern ((APP %d p a)))))\n", c, c, c)
 		fmt.Fprintf(&sb, "(assert (forall ((p Int) (m DT_token)) (! (= (MX %d p m) m) :pattern ((MX %d p m)))))\n", c, c)
+		fmt.Fprintf(&sb, "(assert (forall ((p Int) (t Str)) (! (= (TXT %d p t) t) :pattern ((TXT %d p t)))))\n", c, c)
+		fmt.Fprintf(&sb, "(assert (forall ((p Int) (l TLog) (t Str)) (! (= (LOG %d p l t) (snocL l %d t)) :pattern ((LOG %d p l t)))))\n", c, i, c)
 	}
 	return sb.String()
 }
@@ -287,11 +293,15 @@ func (ps *PegSpec) define(n *PNode) {
 		body := ch(0)
 		E, A, M, T := fmt.Sprintf("E_%d", k), fmt.Sprintf("A_%d", k), fmt.Sprintf("M_%d", k), fmt.Sprintf("trig_%d", k)
 		ps.defs = append(ps.defs,
-			fmt.Sprintf("(declare-fun %s (Int) Int)\n(declare-fun %s (Int TSeq) TSeq)\n(declare-fun %s (Int DT_token) DT_token)\n(declare-fun %s (Int) Bool)", E, A, M, T),
+			fmt.Sprintf("(declare-fun %s (Int) Int)\n(declare-fun %s (Int) Bool)", E, T),
 			fmt.Sprintf("(assert (forall ((p Int)) (! (%s p) :pattern ((%s p)))))", T, T),
-			fmt.Sprintf("(assert (forall ((p Int)) (! (= (%s p) (ite %s (%s %s) p)) :pattern ((%s p)))))", E, sx(ps.f("ok", body), "p"), E, sx(ps.f("end", body), "p"), T),
-			fmt.Sprintf("(assert (forall ((p Int) (a TSeq)) (! (= (%s p a) (ite %s (%s %s %s) a)) :pattern ((%s p) (%s p a)))))", A, sx(ps.f("ok", body), "p"), A, sx(ps.f("end", body), "p"), sx(ps.f("app", body), "p", "a"), T, A),
-			fmt.Sprintf("(assert (forall ((p Int) (m DT_token)) (! (= (%s p m) (ite %s (%s %s %s) %s)) :pattern ((%s p) (%s p m)))))", M, sx(ps.f("ok", body), "p"), M, sx(ps.f("end", body), "p"), sx(ps.f("mx", body), "p", "m"), sx(ps.f("mx", body), "p", "m"), T, M))
+			fmt.Sprintf("(assert (forall ((p Int)) (! (= (%s p) (ite %s (%s %s) p)) :pattern ((%s p)))))", E, sx(ps.f("ok", body), "p"), E, sx(ps.f("end", body), "p"), T))
+		if ps.Mode.Ast {
+			ps.defs = append(ps.defs,
+				fmt.Sprintf("(declare-fun %s (Int TSeq) TSeq)\n(declare-fun %s (Int DT_token) DT_token)", A, M),
+				fmt.Sprintf("(assert (forall ((p Int) (a TSeq)) (! (= (%s p a) (ite %s (%s %s %s) a)) :pattern ((%s p) (%s p a)))))", A, sx(ps.f("ok", body), "p"), A, sx(ps.f("end", body), "p"), sx(ps.f("app", body), "p", "a"), T, A),
+				fmt.Sprintf("(assert (forall ((p Int) (m DT_token)) (! (= (%s p m) (ite %s (%s %s %s) %s)) :pattern ((%s p) (%s p m)))))", M, sx(ps.f("ok", body), "p"), M, sx(ps.f("end", body), "p"), sx(ps.f("mx", body), "p", "m"), sx(ps.f("mx", body), "p", "m"), T, M))
+		}
 		if n.TypeName == "Star" {
 			ok, end, app, mx = "true", sx(E, "p"), sx(A, "p", "a"), sx(M, "p", "m")
 		} else {
@@ -316,9 +326,12 @@ func (ps *PegSpec) define(n *PNode) {
 			}
 			ps.defs = append(ps.defs,
 				fmt.Sprintf("(define-fun sok_%d_%d ((p Int)) Bool %s)", k, i, nOK),
-				fmt.Sprintf("(define-fun spre_%d_%d ((p Int)) Int %s)", k, i, nP),
-				fmt.Sprintf("(define-fun sapp_%d_%d ((p Int) (a TSeq)) TSeq %s)", k, i, nA),
-				fmt.Sprintf("(define-fun smx_%d_%d ((p Int) (m DT_token)) DT_token %s)", k, i, nM))
+				fmt.Sprintf("(define-fun spre_%d_%d ((p Int)) Int %s)", k, i, nP))
+			if ps.Mode.Ast {
+				ps.defs = append(ps.defs,
+					fmt.Sprintf("(define-fun sapp_%d_%d ((p Int) (a TSeq)) TSeq %s)", k, i, nA),
+					fmt.Sprintf("(define-fun smx_%d_%d ((p Int) (m DT_token)) DT_token %s)", k, i, nM))
+			}
 			pre, okpre = fmt.Sprintf("(spre_%d_%d p)", k, i), fmt.Sprintf("(sok_%d_%d p)", k, i)
 			apre, mpre = fmt.Sprintf("(sapp_%d_%d p a)", k, i), fmt.Sprintf("(smx_%d_%d p m)", k, i)
 		}
@@ -333,9 +346,12 @@ func (ps *PegSpec) define(n *PNode) {
 			if i < last-1 {
 				ps.defs = append(ps.defs,
 					fmt.Sprintf("(define-fun aok_%d_%d ((p Int)) Bool %s)", k, i+1, ok),
-					fmt.Sprintf("(define-fun aend_%d_%d ((p Int)) Int %s)", k, i+1, end),
-					fmt.Sprintf("(define-fun aapp_%d_%d ((p Int) (a TSeq)) TSeq %s)", k, i+1, app),
-					fmt.Sprintf("(define-fun amx_%d_%d ((p Int) (m DT_token)) DT_token %s)", k, i+1, mx))
+					fmt.Sprintf("(define-fun aend_%d_%d ((p Int)) Int %s)", k, i+1, end))
+				if ps.Mode.Ast {
+					ps.defs = append(ps.defs,
+						fmt.Sprintf("(define-fun aapp_%d_%d ((p Int) (a TSeq)) TSeq %s)", k, i+1, app),
+						fmt.Sprintf("(define-fun amx_%d_%d ((p Int) (m DT_token)) DT_token %s)", k, i+1, mx))
+				}
 				ok, end = fmt.Sprintf("(aok_%d_%d p)", k, i+1), fmt.Sprintf("(aend_%d_%d p)", k, i+1)
 				app = fmt.Sprintf("(aapp_%d_%d p a)", k, i+1)
 				mx = fmt.Sprintf("(amx_%d_%d p m)", k, i+1)
@@ -357,9 +373,85 @@ func (ps *PegSpec) define(n *PNode) {
 	}
 	ps.defs = append(ps.defs,
 		fmt.Sprintf("(define-fun ok_%d ((p Int)) Bool %s)", k, ok),
-		fmt.Sprintf("(define-fun end_%d ((p Int)) Int %s)", k, end),
-		fmt.Sprintf("(define-fun app_%d ((p Int) (a TSeq)) TSeq %s)", k, app),
-		fmt.Sprintf("(define-fun mx_%d ((p Int) (m DT_token)) DT_token %s)", k, mx))
+		fmt.Sprintf("(define-fun end_%d ((p Int)) Int %s)", k, end))
+	if ps.Mode.Ast {
+		ps.defs = append(ps.defs,
+			fmt.Sprintf("(define-fun app_%d ((p Int) (a TSeq)) TSeq %s)", k, app),
+			fmt.Sprintf("(define-fun mx_%d ((p Int) (m DT_token)) DT_token %s)", k, mx))
+	} else {
+		ps.defineNoAst(n)
+	}
+}
+
+// defineNoAst emits txt_k(p,t) (value of `text` after the attempt) and log_k(p,l,t) (ghost log of
+// the actions executed by the attempt, including those of branches that fail later).
+func (ps *PegSpec) defineNoAst(n *PNode) {
+	k := n.k
+	f := func(kind string, c *PNode, args ...string) string { return sx(fmt.Sprintf("%s_%d", kind, c.k), args...) }
+	txt, lg := "t", "l"
+	switch n.TypeName {
+	case "Action":
+		lg = fmt.Sprintf("(snocL l %d t)", n.ID)
+	case "Name":
+		c := ps.consts[n.Str]
+		txt, lg = fmt.Sprintf("(TXT %d p t)", c), fmt.Sprintf("(LOG %d p l t)", c)
+	case "Query", "PeekFor", "PeekNot":
+		txt, lg = f("txt", n.Kids[0], "p", "t"), f("log", n.Kids[0], "p", "l", "t")
+	case "Push":
+		b := n.Kids[0]
+		txt = ite(f("ok", b, "p"), fmt.Sprintf("(str_of_runes bufc p (- %s p))", f("end", b, "p")), f("txt", b, "p", "t"))
+		lg = f("log", b, "p", "l", "t")
+	case "Star", "Plus":
+		b := n.Kids[0]
+		X, G := fmt.Sprintf("X_%d", k), fmt.Sprintf("G_%d", k)
+		T := fmt.Sprintf("trig_%d", k)
+		ps.defs = append(ps.defs,
+			fmt.Sprintf("(declare-fun %s (Int Str) Str)\n(declare-fun %s (Int TLog Str) TLog)", X, G),
+			fmt.Sprintf("(assert (forall ((p Int) (t Str)) (! (= (%s p t) (ite %s (%s %s %s) %s)) :pattern ((%s p) (%s p t)))))", X, f("ok", b, "p"), X, f("end", b, "p"), f("txt", b, "p", "t"), f("txt", b, "p", "t"), T, X),
+			fmt.Sprintf("(assert (forall ((p Int) (l TLog) (t Str)) (! (= (%s p l t) (ite %s (%s %s %s %s) %s)) :pattern ((%s p) (%s p l t)))))", G, f("ok", b, "p"), G, f("end", b, "p"), f("log", b, "p", "l", "t"), f("txt", b, "p", "t"), f("log", b, "p", "l", "t"), T, G))
+		if n.TypeName == "Star" {
+			txt, lg = sx(X, "p", "t"), sx(G, "p", "l", "t")
+		} else {
+			txt = ite(f("ok", b, "p"), sx(X, f("end", b, "p"), f("txt", b, "p", "t")), f("txt", b, "p", "t"))
+			lg = ite(f("ok", b, "p"), sx(G, f("end", b, "p"), f("log", b, "p", "l", "t"), f("txt", b, "p", "t")), f("log", b, "p", "l", "t"))
+		}
+	case "Sequence":
+		pre, okpre := "p", "true"
+		for i, c := range n.Kids {
+			nT := ite(okpre, f("txt", c, pre, txt), txt)
+			nL := ite(okpre, f("log", c, pre, lg, txt), lg)
+			if i == len(n.Kids)-1 {
+				txt, lg = nT, nL
+				break
+			}
+			ps.defs = append(ps.defs,
+				fmt.Sprintf("(define-fun stxt_%d_%d ((p Int) (t Str)) Str %s)", k, i, nT),
+				fmt.Sprintf("(define-fun slog_%d_%d ((p Int) (l TLog) (t Str)) TLog %s)", k, i, nL))
+			txt, lg = fmt.Sprintf("(stxt_%d_%d p t)", k, i), fmt.Sprintf("(slog_%d_%d p l t)", k, i)
+			if i < len(n.Kids)-1 {
+				pre, okpre = fmt.Sprintf("(spre_%d_%d p)", k, i), fmt.Sprintf("(sok_%d_%d p)", k, i)
+			}
+		}
+	case "Alternate":
+		anyOK := "false"
+		for i, c := range n.Kids {
+			nT := ite(anyOK, txt, f("txt", c, "p", txt))
+			nL := ite(anyOK, lg, f("log", c, "p", lg, txt))
+			anyOK = or(anyOK, f("ok", c, "p"))
+			if i == len(n.Kids)-1 {
+				txt, lg = nT, nL
+				break
+			}
+			ps.defs = append(ps.defs,
+				fmt.Sprintf("(define-fun atxt_%d_%d ((p Int) (t Str)) Str %s)", k, i, nT),
+				fmt.Sprintf("(define-fun alog_%d_%d ((p Int) (l TLog) (t Str)) TLog %s)", k, i, nL),
+				fmt.Sprintf("(define-fun aany_%d_%d ((p Int)) Bool %s)", k, i, anyOK))
+			txt, lg, anyOK = fmt.Sprintf("(atxt_%d_%d p t)", k, i), fmt.Sprintf("(alog_%d_%d p l t)", k, i), fmt.Sprintf("(aany_%d_%d p)", k, i)
+		}
+	}
+	ps.defs = append(ps.defs,
+		fmt.Sprintf("(define-fun txt_%d ((p Int) (t Str)) Str %s)", k, txt),
+		fmt.Sprintf("(define-fun log_%d ((p Int) (l TLog) (t Str)) TLog %s)", k, lg))
 }
 
 // RuleRow gives the defining equations of rule r: the ground instance at position term p
@@ -370,8 +462,13 @@ func (ps *PegSpec) RuleRow(r *PRule) (quant string) {
 	t := fmt.Sprintf("(mk_token %d p (end_%d p))", c, b.k)
 	var sb strings.Builder
 	fmt.Fprintf(&sb, "(assert (forall ((p Int)) (! (and (= (OK %d p) (ok_%d p)) (= (END %d p) (end_%d p))) :pattern ((OK %d p)) :pattern ((END %d p)))))\n", c, b.k, c, b.k, c, c)
-	fmt.Fprintf(&sb, "(assert (forall ((p Int) (a TSeq)) (! (= (APP %d p a) (snoc (app_%d p a) %s)) :pattern ((APP %d p a)))))\n", c, b.k, t, c)
-	fmt.Fprintf(&sb, "(assert (forall ((p Int) (m DT_token)) (! (= (MX %d p m) (ite (ok_%d p) (upd (mx_%d p m) %s) (mx_%d p m))) :pattern ((MX %d p m)))))\n", c, b.k, b.k, t, b.k, c)
+	if ps.Mode.Ast {
+		fmt.Fprintf(&sb, "(assert (forall ((p Int) (a TSeq)) (! (= (APP %d p a) (snoc (app_%d p a) %s)) :pattern ((APP %d p a)))))\n", c, b.k, t, c)
+		fmt.Fprintf(&sb, "(assert (forall ((p Int) (m DT_token)) (! (= (MX %d p m) (ite (ok_%d p) (upd (mx_%d p m) %s) (mx_%d p m))) :pattern ((MX %d p m)))))\n", c, b.k, b.k, t, b.k, c)
+	} else {
+		fmt.Fprintf(&sb, "(assert (forall ((p Int) (t Str)) (! (= (TXT %d p t) (txt_%d p t)) :pattern ((TXT %d p t)))))\n", c, b.k, c)
+		fmt.Fprintf(&sb, "(assert (forall ((p Int) (l TLog) (t Str)) (! (= (LOG %d p l t) (log_%d p l t)) :pattern ((LOG %d p l t)))))\n", c, b.k, c)
+	}
 	return sb.String()
 }
 
@@ -552,45 +649,193 @@ func (f firstSet) smt(c string) string {
 	return or(ors...)
 }
 
-// hasFirstLemma: rules for which the lemma OK(r,p) => buf[p] in FIRST(r) is stated.
+// hasFirstLemma: rules for which a progress/first-set lemma is attempted.
 func (ps *PegSpec) hasFirstLemma(r *PRule) bool {
-	return !ps.Nullable[r.Name] && !ps.LeftRec[r.Name] && !ps.First[r.Name].any && r.Const != 0
+	return !ps.LeftRec[r.Name] && r.Const != 0
 }
 
-// FirstAxioms: the lemmas as patterned axioms (except for rule `skip`, whose lemma is being proved).
-func (ps *PegSpec) FirstAxioms(skip string) string {
+// ruleLemma: OK(r,p) => p <= END(r,p) <= n, a consuming match starts with a rune of FIRST(r), and a
+// non-nullable rule consumes.
+func (ps *PegSpec) ruleLemma(r *PRule, p string) string {
+	c := r.Const
+	end := fmt.Sprintf("(END %d %s)", c, p)
+	concl := []string{sx("<=", p, end), sx("<=", end, "n"), imp(sx(">", end, p), ps.First[r.Name].smt("(select bufc "+p+")"))}
+	if !ps.Nullable[r.Name] {
+		concl = append(concl, sx(">", end, p))
+	}
+	return imp(and(sx("<=", "0", p), sx("<=", p, "n"), fmt.Sprintf("(OK %d %s)", c, p)), and(concl...))
+}
+
+func (ps *PegSpec) starLemma(k int, q string) string {
+	e := fmt.Sprintf("(E_%d %s)", k, q)
+	return imp(and(sx("<=", "0", q), sx("<=", q, "n")), and(sx("<=", q, e), sx("<=", e, "n")))
+}
+
+// LemmaAxioms: the lemmas that have been proved, as patterned axioms.
+func (ps *PegSpec) LemmaAxioms(skipRule string, skipStar int) string {
 	var sb strings.Builder
 	for _, r := range ps.Rules {
-		if r.Name == skip || !ps.hasFirstLemma(r) {
+		if r.Name == skipRule || !ps.ProvenRule[r.Name] {
 			continue
 		}
-		fmt.Fprintf(&sb, "(assert (forall ((p Int)) (! (=> (OK %d p) %s) :pattern ((OK %d p)))))\n", r.Const, ps.First[r.Name].smt("(select bufc p)"), r.Const)
+		fmt.Fprintf(&sb, "(assert (forall ((p Int)) (! %s :pattern ((OK %d p)) :pattern ((END %d p)))))\n", ps.ruleLemma(r, "p"), r.Const, r.Const)
 	}
 	return sb.String()
 }
 
-// FirstLemmaQuery: refutation query for the lemma of rule r (spec-level: no code involved).
-func (ps *PegSpec) FirstLemmaQuery(r *PRule, unitPrelude string) string {
+func (ps *PegSpec) starAxioms(r *PRule, skipStar int) string {
 	var sb strings.Builder
-	sb.WriteString(unitPrelude)
-	sb.WriteString(ps.ruleDefs[r.Name])
-	sb.WriteString(ps.FirstAxioms(r.Name))
-	sb.WriteString("(declare-const p0 Int)\n(assert (and (<= 0 p0) (<= p0 n) (>= n 0) (= (select bufc n) " + endSymbolLit + ")))\n")
-	sb.WriteString("(assert (forall ((i Int)) (! (=> (and (<= 0 i) (< i n)) (and (<= 0 (select bufc i)) (<= (select bufc i) 1114111))) :pattern ((select bufc i)))))\n")
-	fmt.Fprintf(&sb, "(assert (= (OK %d p0) (ok_%d p0)))\n", r.Const, r.Body.k)
-	var stars func(n *PNode)
-	stars = func(n *PNode) {
-		if n.TypeName == "Star" || n.TypeName == "Plus" {
-			fmt.Fprintf(&sb, "(assert (trig_%d p0))\n", n.k)
+	var walk func(n *PNode)
+	walk = func(n *PNode) {
+		if (n.TypeName == "Star" || n.TypeName == "Plus") && n.k != skipStar && ps.ProvenStar[n.k] {
+			fmt.Fprintf(&sb, "(assert (forall ((q Int)) (! %s :pattern ((E_%d q)))))\n", ps.starLemma(n.k, "q"), n.k)
 		}
 		if n.TypeName == "Range" {
 			return
 		}
 		for _, c := range n.Kids {
-			stars(c)
+			walk(c)
 		}
 	}
-	stars(r.Body)
-	fmt.Fprintf(&sb, "(assert (OK %d p0))\n(assert (not %s))\n", r.Const, ps.First[r.Name].smt("(select bufc p0)"))
+	walk(r.Body)
 	return sb.String()
+}
+
+const inputFacts = "(assert (and (>= n 0) (= (select bufc n) " + endSymbolLit + ")))\n" +
+	"(assert (forall ((i Int)) (! (=> (and (<= 0 i) (< i n)) (and (<= 0 (select bufc i)) (<= (select bufc i) 1114111))) :pattern ((select bufc i)))))\n"
+
+func (ps *PegSpec) trigAll(r *PRule, p string) string {
+	var sb strings.Builder
+	var walk func(n *PNode)
+	walk = func(n *PNode) {
+		if n.TypeName == "Star" || n.TypeName == "Plus" {
+			fmt.Fprintf(&sb, "(assert (trig_%d %s))\n", n.k, p)
+		}
+		if n.TypeName == "Range" {
+			return
+		}
+		for _, c := range n.Kids {
+			walk(c)
+		}
+	}
+	walk(r.Body)
+	return sb.String()
+}
+
+// ruleLemmaQuery: refutation query for the lemma of rule r (spec level: no code involved).
+func (ps *PegSpec) ruleLemmaQuery(r *PRule, unitPrelude string) string {
+	var sb strings.Builder
+	sb.WriteString(unitPrelude)
+	sb.WriteString(ps.ruleDefs[r.Name])
+	sb.WriteString(ps.LemmaAxioms(r.Name, 0))
+	sb.WriteString(ps.starAxioms(r, 0))
+	sb.WriteString(inputFacts)
+	sb.WriteString("(declare-const p0 Int)\n")
+	// induction hypothesis: the rule's own lemma at every later position (strong induction on n - p)
+	fmt.Fprintf(&sb, "(assert (forall ((p Int)) (! (=> (> p p0) %s) :pattern ((OK %d p)) :pattern ((END %d p)))))\n", ps.ruleLemma(r, "p"), r.Const, r.Const)
+	fmt.Fprintf(&sb, "(assert (and (= (OK %d p0) (ok_%d p0)) (= (END %d p0) (end_%d p0))))\n", r.Const, r.Body.k, r.Const, r.Body.k)
+	sb.WriteString(ps.trigAll(r, "p0"))
+	fmt.Fprintf(&sb, "(assert (not %s))\n", ps.ruleLemma(r, "p0"))
+	return sb.String()
+}
+
+// starLemmaQuery: induction step for q <= E_k(q) <= n (strong induction on n - q).
+func (ps *PegSpec) starLemmaQuery(r *PRule, star *PNode, unitPrelude string) string {
+	var sb strings.Builder
+	sb.WriteString(unitPrelude)
+	sb.WriteString(ps.ruleDefs[r.Name])
+	sb.WriteString(ps.LemmaAxioms("", 0))
+	sb.WriteString(ps.starAxioms(r, star.k))
+	sb.WriteString(inputFacts)
+	sb.WriteString("(declare-const q0 Int)\n")
+	fmt.Fprintf(&sb, "(assert (forall ((q Int)) (! (=> (> q q0) %s) :pattern ((E_%d q)))))\n", ps.starLemma(star.k, "q"), star.k)
+	sb.WriteString(ps.trigAll(r, "q0"))
+	fmt.Fprintf(&sb, "(assert (not %s))\n", ps.starLemma(star.k, "q0"))
+	return sb.String()
+}
+
+// ProveLemmas computes the set of lemmas that hold: start from all candidates, prove each one
+// assuming the others, drop the failures, repeat until stable. (Sound by strong induction on n - p
+// and, at equal positions, on the acyclic left-dependency order of a grammar without left recursion;
+// left-recursive rules are never candidates.)
+func (ps *PegSpec) ProveLemmas(unitPrelude string) (failed []string) {
+	ps.ProvenRule = map[string]bool{}
+	ps.ProvenStar = map[int]bool{}
+	type starOf struct {
+		r *PRule
+		s *PNode
+	}
+	var stars []starOf
+	for _, r := range ps.Rules {
+		if ps.hasFirstLemma(r) {
+			ps.ProvenRule[r.Name] = true
+		}
+		var walk func(n *PNode)
+		walk = func(n *PNode) {
+			if n.TypeName == "Star" || n.TypeName == "Plus" {
+				stars = append(stars, starOf{r, n})
+				ps.ProvenStar[n.k] = true
+			}
+			if n.TypeName == "Range" {
+				return
+			}
+			for _, c := range n.Kids {
+				walk(c)
+			}
+		}
+		walk(r.Body)
+	}
+	for round := 0; round < 6; round++ {
+		type job struct {
+			rule  string
+			star  int
+			query string
+			ok    bool
+		}
+		var jobs []*job
+		for _, r := range ps.Rules {
+			if ps.ProvenRule[r.Name] {
+				jobs = append(jobs, &job{rule: r.Name, query: ps.ruleLemmaQuery(r, unitPrelude)})
+			}
+		}
+		for _, so := range stars {
+			if ps.ProvenStar[so.s.k] {
+				jobs = append(jobs, &job{star: so.s.k, query: ps.starLemmaQuery(so.r, so.s, unitPrelude)})
+			}
+		}
+		var wg sync.WaitGroup
+		sem := make(chan struct{}, 15)
+		for _, j := range jobs {
+			wg.Add(1)
+			sem <- struct{}{}
+			go func(j *job) {
+				defer wg.Done()
+				defer func() { <-sem }()
+				v, _, _ := runOne(solverSpecs["z3-new"], j.query+"\n(check-sat)\n", 1)
+				j.ok = v == VUnsat
+			}(j)
+		}
+		wg.Wait()
+		changed := false
+		for _, j := range jobs {
+			if j.ok {
+				continue
+			}
+			changed = true
+			if j.rule != "" {
+				ps.ProvenRule[j.rule] = false
+				failed = append(failed, "rule "+j.rule)
+			} else {
+				ps.ProvenStar[j.star] = false
+				failed = append(failed, fmt.Sprintf("star #%d", j.star))
+			}
+		}
+		if !changed {
+			return failed
+		}
+	}
+	// not stable after the round limit: use nothing
+	ps.ProvenRule = map[string]bool{}
+	ps.ProvenStar = map[int]bool{}
+	return append(failed, "lemma fixpoint did not stabilise: no lemma is used")
 }
